@@ -70,14 +70,32 @@ func (c *Ctx) ruleConv() {
 	}
 
 	// ---- FIRST
-	for _, name := range []string{"condition.string", "stack.defaultAssertionHandler"} {
-		fn := c.anchor("R-CONV", name)
+	// the two renderers must contain such a call; the equality functions need not, but if one of
+	// them ever judges a value by its own String method the same condition applies (an alias whose
+	// String differs from the native rendering must still be compared as the Stack/Condition it is)
+	firstOptional := map[string]bool{"valuesEqual": true, "slicesEqual": true, "mapsEqual": true, "structsEqual": true, "primitivesEqual": true,
+		"stackageStructsEqual": true, "(*stack).isEqual": true, "(*condition).isEqual": true, "Stack.IsEqual": true, "Condition.IsEqual": true}
+	firstNames := []string{"condition.string", "stack.defaultAssertionHandler"}
+	for n := range firstOptional {
+		firstNames = append(firstNames, n)
+	}
+	sort.Strings(firstNames)
+	for _, name := range firstNames {
+		var fn *ssa.Function
+		if firstOptional[name] {
+			fn = c.p.ByName[name]
+		} else {
+			fn = c.anchor("R-CONV", name)
+		}
 		if fn == nil {
+			continue
+		}
+		gs := c.findCalls(fn, "getStringer", "primitiveStringer")
+		if firstOptional[name] && len(gs) == 0 {
 			continue
 		}
 		fa := c.eng.analyze(fn, nil)
 		var problems []string
-		gs := c.findCalls(fn, "getStringer", "primitiveStringer")
 		if len(gs) == 0 {
 			problems = append(problems, "no generic rendering found (anchor)")
 		}
